@@ -42,6 +42,7 @@ pub const CL_BROADCAST: u32 = 13;
 pub const CL_TWO_VALUES_DELIVERED: u32 = 14;
 pub const CL_SHARED_REPOLL: u32 = 15;
 pub const CL_LOSER_NONE: u32 = 16;
+pub const CL_WINDOW_REACTION: u32 = 17;
 
 const CLASS_NAMES: &[&str] = &[
     "two-pending-at-send",
@@ -61,6 +62,7 @@ const CLASS_NAMES: &[&str] = &[
     "two-receivers-got-the-value",
     "shared-future-polled-pending-twice",
     "competing-receiver-got-none",
+    "acted-inside-the-window-after-unlock",
 ];
 
 impl World for OneshotWorld {
@@ -82,6 +84,15 @@ impl World for OneshotWorld {
         for flavour in [FL_LOCAL, FL_SYNC, FL_CHECKED, FL_SHARED, FL_SHARED_CHECKED] {
             for mode in [0u8, 1] {
                 v.push(Cfg { flavour, mode, x: 0, y: 0, k, sw: 0 });
+            }
+        }
+        // "second thread in the window" (y = 1: the woken future is polled, y = 2: dropped, from
+        // inside wake() whenever the wake-up arrives while the internal lock is free)
+        for flavour in [FL_CHECKED, FL_SHARED_CHECKED] {
+            for mode in [0u8, 1] {
+                for y in [1u8, 2] {
+                    v.push(Cfg { flavour, mode, x: 0, y, k, sw: 0 });
+                }
             }
         }
         v
@@ -132,7 +143,17 @@ impl World for OneshotWorld {
         }
     }
     fn cfg_desc(&self, cfg: &Cfg) -> String {
-        format!("{} flavour={} slots={}", if cfg.mode == 1 { "oneshot-broadcast" } else { "oneshot" }, flavour_name(cfg.flavour), cfg.k)
+        format!(
+            "{} flavour={} slots={}{}",
+            if cfg.mode == 1 { "oneshot-broadcast" } else { "oneshot" },
+            flavour_name(cfg.flavour),
+            cfg.k,
+            match cfg.y {
+                1 => " window-reaction=poll",
+                2 => " window-reaction=drop",
+                _ => "",
+            }
+        )
     }
     fn class_names(&self) -> &'static [&'static str] {
         CLASS_NAMES
@@ -194,6 +215,35 @@ struct Model {
     tx_alive: bool,
     rx_count: usize,
     delivered: u32,
+}
+
+/// Context of a window reaction (`tls::set_reactor`): what a second thread does to a woken receive
+/// future at the instant its wake-up is delivered outside the channel's internal lock.
+struct React<'a, M: RawMutex + 'static> {
+    slots: *mut Vec<Slot<RFut<'a, M>>>,
+    mode: u8,
+    /// (slot, waker variant, result) - result None: the future was dropped
+    done: Vec<(usize, u8, Option<Poll<Option<Tagged>>>)>,
+}
+
+unsafe fn react<M: RawMutex + 'static>(ctx: usize, id: usize) {
+    let cx = &mut *(ctx as *mut React<'static, M>);
+    if cx.done.len() == cx.done.capacity() {
+        return;
+    }
+    let slots = &mut *cx.slots;
+    let s = match slots.iter().position(|s| s.pending() && s.waker_id() == id) {
+        Some(s) => s,
+        None => return,
+    };
+    if cx.mode == 1 {
+        let w = 1 - slots[s].last_w;
+        let r = slots[s].poll_in_window(w);
+        cx.done.push((s, w, Some(r)));
+    } else {
+        slots[s].drop_in_window();
+        cx.done.push((s, 0, None));
+    }
 }
 
 fn run_m<M: RawMutex + 'static>(cfg: &Cfg, ops: &[Op], run: &mut Run) {
@@ -261,6 +311,79 @@ fn run_m<M: RawMutex + 'static>(cfg: &Cfg, ops: &[Op], run: &mut Run) {
         };
     }
 
+    // verdict on the result of polling the receive future in a slot (model state `m` is current)
+    macro_rules! judge_poll {
+        ($s:expr, $w:expr, $r:expr, $was_pending:expr) => {{
+            match $r {
+                        Some(Poll::Ready(v)) => {
+                            run.note(|| format!("poll slot {} waker {} -> Ready({})", $s, $w, v.as_ref().map(|t| format!("v{}", t.id)).unwrap_or("None".into())));
+                            match (m.st, v) {
+                                (St::Open, None) => run.violate(
+                                    closed_prop!(),
+                                    "closed-reported-while-open",
+                                    format!("receive in slot {} completed with None although nothing was sent, close() was not called and a handle of each side is alive", $s),
+                                ),
+                                (St::Open, Some(t)) => {
+                                    run.violate("C12", "value-from-nowhere", format!("receive in slot {} yielded v{} although nothing was sent", $s, t.id));
+                                    std::mem::forget(t);
+                                }
+                                (St::Closed, None) => {}
+                                (St::Closed, Some(t)) => {
+                                    run.violate("C12", "value-after-close", format!("receive in slot {} yielded v{} on a channel that was closed without a value", $s, t.id));
+                                    std::mem::forget(t);
+                                }
+                                (St::Sent, Some(t)) => {
+                                    if Some(t.id) != m.sent_id {
+                                        run.violate("C12", "wrong-value", format!("receive in slot {} yielded v{} but v{:?} was sent", $s, t.id, m.sent_id));
+                                    } else if !bc && m.taken {
+                                        run.violate("C12", "value-delivered-twice", format!("receive in slot {} yielded v{} which another receive had already obtained", $s, t.id));
+                                    }
+                                    m.taken = true;
+                                    m.delivered += 1;
+                                    if m.delivered >= 2 {
+                                        run.class(CL_TWO_VALUES_DELIVERED);
+                                    }
+                                    if slots[$s].flag {
+                                        run.class(CL_RECV_AFTER_SEND);
+                                    }
+                                    keep!(t);
+                                }
+                                (St::Sent, None) => {
+                                    if bc {
+                                        // also C11: receivers still get the values accepted before the (implicit) close
+                                        run.violate2("C12", "C11", "broadcast-missed", format!("broadcast receive in slot {} completed with None although v{:?} was sent", $s, m.sent_id));
+                                    } else if !m.taken {
+                                        run.violate2("C12", "C11", "value-lost", format!("receive in slot {} completed with None although v{:?} was sent and not yet received", $s, m.sent_id));
+                                    } else {
+                                        run.class(CL_LOSER_NONE);
+                                    }
+                                }
+                            }
+                        }
+                        Some(Poll::Pending) => {
+                            run.note(|| format!("poll slot {} waker {} -> Pending", $s, $w));
+                            if m.st != St::Open {
+                                run.violate2(
+                                    if m.st == St::Sent { "C12" } else { "C11" },
+                                    "C12",
+                                    "pending-on-finished-channel",
+                                    format!("receive in slot {} returned Pending although the channel is {}", $s, if m.st == St::Sent { "fulfilled" } else { "closed" }),
+                                );
+                            }
+                            if $was_pending {
+                                run.class(CL_REPOLL_PENDING);
+                                if shared {
+                                    run.class(CL_SHARED_REPOLL);
+                                }
+                            }
+                        }
+                        None => {}
+            }
+        }};
+    }
+    let reactive = cfg.y != 0 && (cfg.flavour == FL_CHECKED || cfg.flavour == FL_SHARED_CHECKED);
+    let mut rc: React<'_, M> = React { slots: std::ptr::null_mut(), mode: cfg.y, done: Vec::with_capacity(8) };
+
     monitors!();
     for (i, op) in ops.iter().enumerate() {
         if run.failed() {
@@ -275,6 +398,10 @@ fn run_m<M: RawMutex + 'static>(cfg: &Cfg, ops: &[Op], run: &mut Run) {
         let pend_unwoken = slots.iter().filter(|s| s.pending() && !s.woken()).count();
         let pending_before = slots.iter().filter(|s| s.pending()).count();
         let mut implicit_close = false;
+        if reactive && matches!(op.code, OP_SEND | OP_CLOSE | OP_DROP_TX | OP_DROP_RX) {
+            rc.slots = &mut slots as *mut _;
+            tls::set_reactor(Some((&mut rc as *mut React<'_, M> as usize, react::<M>)));
+        }
         match op.code {
             OP_SEND => {
                 let can = match chan {
@@ -408,71 +535,8 @@ fn run_m<M: RawMutex + 'static>(cfg: &Cfg, ops: &[Op], run: &mut Run) {
             OP_POLL => match next_where(&slots, op.a, |s| s.pollable()) {
                 Some(s) => {
                     let was_pending = slots[s].pending();
-                    match slots[s].poll(op.b, run) {
-                        Some(Poll::Ready(v)) => {
-                            run.note(|| format!("poll slot {} waker {} -> Ready({})", s, op.b, v.as_ref().map(|t| format!("v{}", t.id)).unwrap_or("None".into())));
-                            match (m.st, v) {
-                                (St::Open, None) => run.violate(
-                                    closed_prop!(),
-                                    "closed-reported-while-open",
-                                    format!("receive in slot {} completed with None although nothing was sent, close() was not called and a handle of each side is alive", s),
-                                ),
-                                (St::Open, Some(t)) => {
-                                    run.violate("C12", "value-from-nowhere", format!("receive in slot {} yielded v{} although nothing was sent", s, t.id));
-                                    std::mem::forget(t);
-                                }
-                                (St::Closed, None) => {}
-                                (St::Closed, Some(t)) => {
-                                    run.violate("C12", "value-after-close", format!("receive in slot {} yielded v{} on a channel that was closed without a value", s, t.id));
-                                    std::mem::forget(t);
-                                }
-                                (St::Sent, Some(t)) => {
-                                    if Some(t.id) != m.sent_id {
-                                        run.violate("C12", "wrong-value", format!("receive in slot {} yielded v{} but v{:?} was sent", s, t.id, m.sent_id));
-                                    } else if !bc && m.taken {
-                                        run.violate("C12", "value-delivered-twice", format!("receive in slot {} yielded v{} which another receive had already obtained", s, t.id));
-                                    }
-                                    m.taken = true;
-                                    m.delivered += 1;
-                                    if m.delivered >= 2 {
-                                        run.class(CL_TWO_VALUES_DELIVERED);
-                                    }
-                                    if slots[s].flag {
-                                        run.class(CL_RECV_AFTER_SEND);
-                                    }
-                                    keep!(t);
-                                }
-                                (St::Sent, None) => {
-                                    if bc {
-                                        // also C11: receivers still get the values accepted before the (implicit) close
-                                        run.violate2("C12", "C11", "broadcast-missed", format!("broadcast receive in slot {} completed with None although v{:?} was sent", s, m.sent_id));
-                                    } else if !m.taken {
-                                        run.violate2("C12", "C11", "value-lost", format!("receive in slot {} completed with None although v{:?} was sent and not yet received", s, m.sent_id));
-                                    } else {
-                                        run.class(CL_LOSER_NONE);
-                                    }
-                                }
-                            }
-                        }
-                        Some(Poll::Pending) => {
-                            run.note(|| format!("poll slot {} waker {} -> Pending", s, op.b));
-                            if m.st != St::Open {
-                                run.violate2(
-                                    if m.st == St::Sent { "C12" } else { "C11" },
-                                    "C12",
-                                    "pending-on-finished-channel",
-                                    format!("receive in slot {} returned Pending although the channel is {}", s, if m.st == St::Sent { "fulfilled" } else { "closed" }),
-                                );
-                            }
-                            if was_pending {
-                                run.class(CL_REPOLL_PENDING);
-                                if shared {
-                                    run.class(CL_SHARED_REPOLL);
-                                }
-                            }
-                        }
-                        None => {}
-                    }
+                    let r = slots[s].poll(op.b, run);
+                    judge_poll!(s, op.b, r, was_pending);
                 }
                 None => run.noops += 1,
             },
@@ -594,6 +658,27 @@ fn run_m<M: RawMutex + 'static>(cfg: &Cfg, ops: &[Op], run: &mut Run) {
                 run.class(CL_THREE_PENDING_WAKE_ALL);
             }
             m.st = St::Closed;
+        }
+        if reactive {
+            tls::set_reactor(None);
+            // what the "second thread" did inside the window happened after the call took effect
+            let done: Vec<_> = rc.done.drain(..).collect();
+            for (s, w, r) in done {
+                if run.failed() {
+                    if let Some(Poll::Ready(Some(t))) = r {
+                        std::mem::forget(t);
+                    }
+                    continue;
+                }
+                run.class(CL_WINDOW_REACTION);
+                match r {
+                    Some(r) => {
+                        run.note(|| format!("  (inside the window after the unlock: slot {} polled by another thread)", s));
+                        judge_poll!(s, w, Some(r), true);
+                    }
+                    None => run.note(|| format!("  (inside the window after the unlock: slot {} dropped by another thread)", s)),
+                }
+            }
         }
         // C18
         let (a, d) = tls::alloc_counts();
